@@ -219,7 +219,10 @@ def run(ctx):
                 if int(kv["dropped"]) != 0:
                     ctx.violation("basic-dropped:%s:%s" % (label, f[1]), {"db": label, "zone": f[1]},
                                   "%s %s: the basic processor needed more than its 5 cache slots (%s transitions dropped)" % (label, f[1], kv["dropped"]))
-            if int(kv["errors"]) != 0:
+            if int(kv["errors"]) >= 1000:
+                ctx.violation("abbrev-overrun:%s:%s" % (label, f[1]), {"db": label, "zone": f[1]},
+                              "%s %s: getAbbrev() returned more than 6 characters (the abbreviation buffer was overrun or left unterminated)" % (label, f[1]))
+            elif int(kv["errors"]) != 0:
                 ctx.violation("bufs-error:%s:%s" % (label, f[1]), {"db": label, "zone": f[1]}, "%s %s: in-range query returned an error" % (label, f[1]))
         ctx.extra["worst_highwater_" + label] = worst
     check_bufs(exe, "shipped")
@@ -240,6 +243,11 @@ def run(ctx):
     for scope in ("extended", "basic"):
         objs = tzgen.systematic_sources(scope == "basic")
         text = "".join(tzgen.render(o, "S%d" % i) for i, o in enumerate(objs))
+        if scope == "extended":
+            # FORMAT + LETTER longer than the 6 characters an abbreviation buffer holds (zic only warns about such names; the
+            # library must cut them, never write past the buffer)
+            text += ("Rule\tPL\t1990\tmax\t-\tMar\tlastSun\t2:00\t1:00\tEFGHIJKL\nRule\tPL\t1990\tmax\t-\tOct\tlastSun\t3:00\t0\tMNO\n"
+                     "Zone\tGen/LongAbbrev1\t3:00\tPL\tABCD%s\nZone\tGen/LongAbbrev2\t3:00\tPL\t%s\nZone\tGen/LongAbbrev3\t3:00\tPL\tABCDEF%s\n")
         r = compilelib.compile_source(work, "gen_" + scope, text, scope, "arduino", db_namespace="gn" + scope[0], actions="zonedb")
         if r["rc"] != 0:
             raise vt.HarnessError("tzcompiler failed on the enumerated sources (C03 reports that): " + r["log"][-400:])
